@@ -16,6 +16,8 @@
     datagram_received_total                       nothing propagates to the transport (assumptions: see receive_total)
     receive_all_recipients_called                 every listener the loop starts with is invoked unless removed / endpoint closed mid-dispatch
     prefix_gate                                   handlers (public, circuit-only) only for datagrams starting with the overlay's prefix
+    exit_datagram_received_total (tracker_clauses_guarded, tracker_total, could_be_utp_total)   the exit sockets' callback
+    cell_header_complete                          an accepted cell contains its whole header
     load_snapshot_progress / load_snapshot_total / load_snapshot_never_raises
 -/
 import Ipv8.C03.Lemmas
@@ -823,6 +825,88 @@ theorem datagram_received_total (env : Env) (dec : Nat → Bytes → Dec) (fuel 
           simp at hn; omega
     · exact receive_total ..
 
+/-! ### exit sockets -/
+
+/-- every clause of could_be_udp_tracker reads 4 bytes that its own length test covers (generated table) -/
+theorem tracker_clauses_guarded : Gen.trackerClauses.all (fun c => decide (c.2.1 + 4 ≤ c.1)) = true := by decide
+
+theorem tracker_total (d : Bytes) (cs : List (Nat × Nat × Nat)) (h : cs.all (fun c => decide (c.2.1 + 4 ≤ c.1)) = true) :
+    ∃ b, couldBeTrackerOf d cs = .ok b := by
+  induction cs with
+  | nil => exact ⟨false, rfl⟩
+  | cons c rest ih =>
+    simp only [List.all_cons, Bool.and_eq_true, decide_eq_true_eq] at h
+    obtain ⟨b, hb⟩ := ih h.2
+    unfold couldBeTrackerOf
+    have hc : ∃ x, trackerClause d c = .ok x := by
+      unfold trackerClause andE
+      by_cases hl : c.1 ≤ d.length
+      · simp only [hl, decide_true]
+        unfold readBE
+        rw [if_pos (by omega)]
+        exact ⟨_, rfl⟩
+      · simp only [hl, decide_false]
+        exact ⟨_, rfl⟩
+    obtain ⟨x, hx⟩ := hc
+    rw [hx]
+    cases x with
+    | true => exact ⟨true, rfl⟩
+    | false => exact ⟨b, by simp [orE, hb]⟩
+
+theorem could_be_utp_total (d : Bytes) : ∃ b, couldBeUtp d = .ok b := by
+  unfold couldBeUtp
+  split
+  · exact ⟨_, rfl⟩
+  · rename_i hl
+    unfold readBE
+    rw [if_pos (by simp [Gen.utpMinLen, Gen.utpRead] at hl ⊢; omega)]
+    exact ⟨_, rfl⟩
+
+/-- NEW (every transport of the node, not only the overlay socket): TunnelExitSocket.datagram_received — the callback of
+    the UDP sockets an exit node opens towards the Internet — returns normally for every byte string, every exit policy
+    and whatever sending the data back into the circuit does.  `is_allowed` runs outside the try block, so this rests on
+    DataChecker never raising: each of its `unpack_from` reads is covered by the length test in front of it
+    (`tracker_clauses_guarded`, `utpRead ≤ utpMinLen`; could_be_dht / could_be_ipv8 only slice). -/
+theorem exit_datagram_received_total (cfg : ExitCfg) (tunnelRaises : Bool) (d : Bytes) :
+    ∃ o, exitDatagramReceived cfg tunnelRaises d = .ok o := by
+  have hbt : ∃ b, couldBeBt d = .ok b := by
+    unfold couldBeBt
+    obtain ⟨u, hu⟩ := could_be_utp_total d
+    obtain ⟨t, ht⟩ := tracker_total d Gen.trackerClauses tracker_clauses_guarded
+    rw [hu]
+    cases u with
+    | true => exact ⟨true, rfl⟩
+    | false =>
+      simp only [orE]
+      unfold couldBeTracker
+      rw [ht]
+      cases t <;> exact ⟨_, rfl⟩
+  obtain ⟨b, hb⟩ := hbt
+  unfold exitDatagramReceived isAllowed
+  rw [hb]
+  simp only
+  split
+  · rename_i e he; cases he
+  · exact ⟨_, rfl⟩
+  · simp [Gen.exitTunnelProtected]
+
+/-! ### the cell header -/
+
+/-- NEW (cell layer of "a truncated message is never silently accepted"): when CellPayload.from_bin accepts a packet,
+    the whole header (circuit id and both flag bytes) lies inside the packet and the message is exactly what follows it;
+    so a cell that ends inside its header is rejected, never decoded to an empty message. -/
+theorem cell_header_complete (p : Bytes) (c : Cell) (h : cellFromBin p = .ok c) :
+    Gen.cellMsgStart ≤ p.length ∧ c.message = p.drop Gen.cellMsgStart
+      ∧ c.cid = beDec (slice p Gen.cellHdrOff (Gen.cellHdrOff + 4)) := by
+  unfold cellFromBin at h
+  split at h
+  · rename_i hl
+    cases h
+    refine ⟨?_, rfl, rfl⟩
+    simp [Gen.cellHdrOff, Gen.cellHdrSize, Gen.cellMsgStart] at hl ⊢
+    omega
+  · cases h
+
 /-! ### snapshot loader -/
 
 /-- each entry the loader accepts lies inside the snapshot and strictly advances the offset -/
@@ -928,6 +1012,13 @@ example : Ev.called 2 ∈ (notify exOneShot (fun _ _ => .fail) 9 exReg2 {} [1] [
         · cases h) 9 (by decide)
 /-- the stale-entry case of the sender lookup as a stated instance -/
 example : ∃ p, (exNet.lookup [1]).1 = .ok p := sender_lookup_total exNet [1]
+/-- exit socket: an 8-byte datagram whose first word is not a tracker action is simply dropped (second clause needs 12) -/
+example : (match exitDatagramReceived { exitBT := true, exitIPv8 := true, pfx := exPfx } true [0, 0, 0, 9, 1, 2, 3, 4] with
+    | .ok o => some o | .error _ => none) = some .dropped := by decide
+example : (match exitDatagramReceived { exitBT := true, exitIPv8 := false, pfx := exPfx } true [0, 0, 0, 2, 1, 2, 3, 4] with
+    | .ok o => some o | .error _ => none) = some .tunneled := by decide
+/-- a cell that ends inside its header (27, 28 bytes) is rejected -/
+example : (match cellFromBin (exPfx ++ [0, 0, 0, 0, 9, 1]) with | .ok _ => true | .error _ => false) = false := by decide
 /-- a StatisticsEndpoint tracking the prefix: the 22-byte datagram equal to the prefix is dropped, not indexed -/
 example : (statsOnPacket 5 [exPfx] exPfx) = ([.called 5], none) := by decide
 /-- a circuit without hops: an encrypted cell for it is dropped before any decryption (dec would otherwise be used) -/
